@@ -1102,6 +1102,10 @@ class Interp:
             it0 = self.iterate(self.eval(e.generators[0].iter))
             if isinstance(it0, SymList) and self.default_unroll(it0) is None:
                 return self.lazy_map(e, it0)
+        elif len(e.generators) == 1:
+            it0 = self.iterate(self.eval(e.generators[0].iter))
+            if isinstance(it0, SymList) and self.default_unroll(it0) is None:
+                return self.lazy_filter_map(e, it0)
         out = []
         self.frames.append(self._comp_frame())
         try:
@@ -1134,6 +1138,46 @@ class Interp:
             self.ctx.oblige(f"{self.frames[-1].qualname}/comprehension-does-not-raise", z3.Implies(AND(j0 >= 0, j0 < L.n), AND(*guards)),
                             kind="safety", props=getattr(self, "safety_props", ()))
         return SymList(L.n, f)
+
+    def lazy_filter_map(self, e, L):
+        """[f(x) for x in L if c(x)] with pure f, c over a symbolic list: the selected indices sel(0) < sel(1) < ... <
+        sel(m-1) are exactly the indices of L whose element satisfies c (rank is the inverse), and the result is
+        R[j] = f(L[sel(j)]).  What c and f need in order not to raise is one safety obligation over a fresh index."""
+        ctx = self.ctx
+        frame = self._comp_frame()
+        g = e.generators[0]
+
+        def ev(i, what):
+            self.frames.append(frame)
+            self.pure += 1
+            try:
+                self.assign(g.target, L.get(i))
+                if what == "cond":
+                    return AND(*[self.as_formula(self.eval(c)) for c in g.ifs])
+                return self.eval(e.elt)
+            finally:
+                self.pure -= 1
+                self.frames.pop()
+        j0 = ctx.fresh("j", Int)
+        n_before = len(self.pure_guards)
+        ev(j0, "cond")
+        ev(j0, "elt")
+        guards = self.pure_guards[n_before:]
+        del self.pure_guards[n_before:]
+        if guards:
+            ctx.oblige(f"{self.frames[-1].qualname}/comprehension-does-not-raise", z3.Implies(AND(j0 >= 0, j0 < L.n), AND(*guards)),
+                       kind="safety", props=getattr(self, "safety_props", ()))
+        m = ctx.fresh("nsel", Int)
+        sel = ctx.fresh_fun("sel", Int, Int)
+        rank = ctx.fresh_fun("rank", Int, Int)
+        i_, k_ = z3.Ints("i!f k!f")
+        ctx.assume(AND(m >= 0, m <= L.n))
+        ctx.assume(z3.ForAll([k_], z3.Implies(AND(k_ >= 0, k_ < m), AND(sel(k_) >= 0, sel(k_) < L.n, ev(sel(k_), "cond"), rank(sel(k_)) == k_))))
+        ctx.assume(z3.ForAll([i_, k_], z3.Implies(AND(i_ >= 0, i_ < k_, k_ < m), sel(i_) < sel(k_))))
+        ctx.assume(z3.ForAll([i_], z3.Implies(AND(i_ >= 0, i_ < L.n, ev(i_, "cond")), AND(rank(i_) >= 0, rank(i_) < m, sel(rank(i_)) == i_))))
+        out = SymList(m, lambda k: ev(sel(k), "elt"))
+        out.sel, out.rank, out.source = sel, rank, L
+        return out
 
     def e_GeneratorExp(self, e):
         return self.e_ListComp(e)
